@@ -155,6 +155,8 @@ Repl(s) ==
 MutantsAt(segs, i) == {[segs EXCEPT ![i].b = nb] : nb \in Repl(segs[i]) \ {segs[i].b}}
 \* nesting deepened: the type at segment i is wrapped n times in a composite type whose encoding up to the element type is
 \* `pat` (list / set: the 2-byte id; tuple of one: id + count 1; map<int, .>: id + int id; UDT of one field) — frame length recomputed
-DeepPats == {<<0, 32>>, <<0, 34>>, <<0, 49, 0, 1>>, <<0, 33, 0, 9>>, <<0, 48, 0, 1, 107, 0, 1, 117, 0, 1, 0, 1, 102>>}
+DeepPats == {<<0, 32>>, <<0, 34>>, <<0, 49, 0, 1>>, <<0, 33, 0, 9>>, <<0, 48, 0, 1, 107, 0, 1, 117, 0, 1, 0, 1, 102>>,
+             \* "fat" nesting: a tuple / UDT that announces 65535 members at every level (and delivers the nested one)
+             <<0, 49, 255, 255>>, <<0, 48, 0, 1, 107, 0, 1, 117, 255, 255, 0, 1, 102>>}
 Deepen(segs, i, n, pat) == Reframe(SubSeq(segs, 1, i - 1) \o Seg("raw", 0, [j \in 1..(Len(pat) * n) |-> pat[((j - 1) % Len(pat)) + 1]]) \o SubSeq(segs, i, Len(segs)))
 =============================================================================
